@@ -340,7 +340,7 @@ class World:
         if getattr(prec.obj, "_closed", False):
             try:
                 t.closed = True
-            except ValueError:
+            except Exception:       # whatever the setter of the code under test makes of it
                 pass
         return t
 
